@@ -464,7 +464,7 @@ func scenarioSize(sc *Scenario) int {
 func selfCheck(pl *plan) string {
 	var picks []*Scenario
 	for _, sc := range pl.scenarios {
-		if sc.Family == "load" {
+		if sc.Family == "load" || realTime(sc) {
 			continue
 		}
 		picks = append(picks, sc)
@@ -491,6 +491,30 @@ func selfCheck(pl *plan) string {
 		}
 	}
 	return ""
+}
+
+// realTime: the scenario uses a fault that lives in real time or in the kernel (a pipe
+// with a reader of its own, sleeps of the consumer, the producer or an evaluation): the
+// order in which goroutines come to rest is then not the scheduler's alone, so its
+// trace hash is not expected to repeat exactly.
+func realTime(sc *Scenario) bool {
+	if sc.ConsStallMs > 0 {
+		return true
+	}
+	// a thinned-out set of automatic hooks (every m-th lock or atomic operation parks)
+	// leaves goroutines that run in parallel between two hooks free to meet at the
+	// un-hooked operations in either order: the verdicts stand, the trace may differ
+	if sc.Sites["auto"] > 1 {
+		return true
+	}
+	for _, g := range sc.Groups {
+		for _, j := range g {
+			if j.Fault.Kind == "fifo" || j.StallMs > 0 || j.EvalStallMs > 0 {
+				return true
+			}
+		}
+	}
+	return false
 }
 
 func buildEvidence(pl *plan, tier string, seed uint64, outs []runOut, nviol int, wall time.Duration, truncated bool) *evidence {
